@@ -76,6 +76,17 @@ def check_text(case, stats):
     if stop[0] == "ok":
         raise Violation(case, "stop-at-first-error mode accepts a document the collecting mode rejects\n%s" % text)
     generic_invariants(case, text, real[1], stop[1])
+    # shallow copies of a parser (prototype / clone pattern) that are given the other error mode behave as that mode
+    import copy
+    proto = gh.Parser(gh.AstBuilder(gh.IdGenerator()))
+    proto.stop_at_first_error = False
+    r = gh.parse(text, dflt, parser=copy.copy(proto), stop=True)
+    if r != stop:
+        raise Violation(case, "a copy.copy() of a collecting parser switched to stop-at-first-error mode gives %r, expected %r\n%s" % (r[1][:3], stop[1], text))
+    proto.stop_at_first_error = True
+    r = gh.parse(text, dflt, parser=copy.copy(proto), stop=False)
+    if r != real:
+        raise Violation(case, "a copy.copy() of a stop-at-first-error parser switched to collecting mode gives %r, expected %r\n%s" % (r[1][:3], real[1][:3], text))
     # stream API: only parseError envelopes, one per error, in order (default dialect only: the stream has no dialect option)
     if dflt == "en":
         ev = gh.GherkinEvents(gh.GherkinEvents.Options(print_source=True, print_ast=True, print_pickles=True))
@@ -314,7 +325,54 @@ def check_expected(case, stats):
         raise Violation(f["case"], f["message"])
 
 
+MODE_SCRIPT = r"""
+import json, sys
+sys.path.insert(0, sys.argv[1]); sys.path.insert(0, sys.argv[2])
+from vlib import gh
+texts = json.load(sys.stdin)
+print(json.dumps([[gh.parse(t, stop=False), gh.parse(t, stop=True)] for t in texts]))
+"""
+
+
+def check_modes(case, stats):
+    """the error reports do not depend on how the interpreter was started (assertions / docstrings stripped, C locale)"""
+    import itertools
+    import json
+    import subprocess
+    import sys
+    from vlib.common import REPO, VERIF
+    texts = [t for n, t in noisy.corpus_texts() if "/bad/" in n or "bad" in n]
+    for combo in itertools.product(BLOCK_NAMES, repeat=2):
+        lines = ["Feature: f", " Scenario: s", "  Given x"]
+        for b in combo:
+            lines += BLOCKS[b]
+        texts.append("\n".join(lines) + "\n")
+    here = [[list(map(_jsonable, gh.parse(t, stop=False))), list(map(_jsonable, gh.parse(t, stop=True)))] for t in texts]
+    stats.case(("modes", case["name"]), True, sample={"name": case["name"], "documents": len(texts)})
+    r = subprocess.run([sys.executable] + case["flags"] + ["-X", "utf8", "-c", MODE_SCRIPT, os.path.join(REPO, "python"), VERIF], input=json.dumps(texts), capture_output=True, text=True, timeout=600,
+                       env=dict(os.environ, PYTHONDONTWRITEBYTECODE="1", **case.get("env", {})))
+    if r.returncode != 0:
+        raise Violation(case, "a fresh interpreter started with %r does not get through the rejected documents: %s" % (case["flags"], r.stderr[-500:]))
+    there = json.loads(r.stdout)
+    for t, a, b in zip(texts, here, there):
+        if json.loads(json.dumps(a)) != b:
+            raise Violation(dict(case, text=t), "errors reported in an interpreter started with %r differ: %r vs %r\n%s" % (case["flags"], b[0][1][:2] if b[0][0] == "err" else b[0][0], a[0][1][:2] if a[0][0] == "err" else a[0][0], t))
+
+
+def _jsonable(x):
+    return x
+
+
+def unit_modes(a):
+    stats = Stats()
+    sweep(stats, [{"sub": "modes", "name": "-OO", "flags": ["-OO"]}, {"sub": "modes", "name": "-O", "flags": ["-O"]},
+                  {"sub": "modes", "name": "c-locale", "flags": [], "env": {"LC_ALL": "C", "LANG": "C"}}], check_modes)
+    return stats
+
+
 def replay(case, stats):
+    if case.get("sub") == "modes":
+        return check_modes(case, stats)
     return {"text": check_text, "bad": check_bad, "expected": check_expected, "tagline": check_tagline}[case["sub"]](case, stats)
 
 
@@ -336,6 +394,7 @@ def run(ctx):
     ctx.extra["exhaustive_part"] = ("42 parser states x 13 line kinds (+ end of file, with and without final newline) as real English text; 42 expected lists vs siblings; all sequences of "
                                    "<= %d of %d fault/structure building blocks (ragged table, tag with blanks, garbage, unknown language, open doc string, ...) after a scenario step, plus a 1/%d sample of length %d" % (
                                        3 if q else 4, len(BLOCKS), 2 if q else 3, 4 if q else 5))
+    ctx.units("interpreter-modes", unit_modes, [{}])
     ctx.rule = ("every document is run through the real parser (collecting and stop mode) and the stream API, and through the table-driven reference parser "
                 "(sibling tables + reference lexer); the ordered error lists must be equal in (line, column, message); independent invariants: message starts "
                 "with its own position, unique, <= 11, inside the document, stop mode = first collected error, rejected source yields only parseError envelopes. "
